@@ -74,7 +74,7 @@ fn addr_sel() -> BoxedStrategy<AddrSel> {
 }
 
 fn xsel() -> BoxedStrategy<XSel> {
-    prop_oneof![4 => (0u8..3).prop_map(XSel::Peer), 1 => (0u8..4).prop_map(XSel::Random)].boxed()
+    prop_oneof![8 => (0u8..3).prop_map(XSel::Peer), 2 => (0u8..4).prop_map(XSel::Random), 1 => (0u8..2).prop_map(XSel::Ed)].boxed()
 }
 
 fn mutation() -> BoxedStrategy<Mutation> {
@@ -108,8 +108,8 @@ fn forged_handshake() -> BoxedStrategy<Op> {
         1 => Just(AttachedRecord::None),
     ];
     let fb = prop_oneof![3 => Just(ForgedBody::Ping), 1 => Just(ForgedBody::FindNode), 1 => Just(ForgedBody::Talk), 1 => Just(ForgedBody::Garbage)];
-    (xsel(), 0u8..3, signer, eph, rec, fb)
-        .prop_map(|(x, z, signer, eph, rec, body)| Op::ForgedHandshake { x, z, signer, eph, rec, body })
+    (xsel(), 0u8..3, signer, eph, rec, fb, prop_oneof![4 => Just(false), 1 => Just(true)])
+        .prop_map(|(x, z, signer, eph, rec, body, spoof)| Op::ForgedHandshake { x, z, signer, eph, rec, body, spoof })
         .boxed()
 }
 
@@ -175,6 +175,7 @@ pub fn op_strategy(n_peers: u8, mix: Mix) -> BoxedStrategy<Op> {
             all.push((2, probe));
         }
         Mix::Tamper => {
+            all.push((2, forged_handshake()));
             all.push((16, mutate));
             all.push((5, redirect));
             all.push((4, replay));
@@ -193,7 +194,7 @@ pub fn ops_strategy(n_peers: u8, mix: Mix, max_fragments: usize) -> BoxedStrateg
             let mut v = vec![Op::Probe { x, z }];
             v.extend(between);
             if let Op::ForgedHandshake { signer, eph, rec, body, .. } = fh {
-                v.push(Op::ForgedHandshake { x, z, signer, eph, rec, body });
+                v.push(Op::ForgedHandshake { x, z, signer, eph, rec, body, spoof: false });
             }
             if let Some(body) = follow {
                 v.push(Op::ForgedMessage { x, z, body });
@@ -228,10 +229,43 @@ pub fn ops_strategy(n_peers: u8, mix: Mix, max_fragments: usize) -> BoxedStrateg
             v
         })
         .boxed();
+    // V has an unanswered WHOAREYOU out for honest peer p AND (through its own request) a live
+    // session with p; an on-path adversary then answers that WHOAREYOU in p's name from p's address
+    let spoof_race = (0u8..n_peers.max(1), forged_handshake(), any::<bool>(), any::<bool>())
+        .prop_map(|(p, fh, with_record, lost_challenge)| {
+            let peer = 1 + p;
+            // (needs V's application to answer who-are-you queries late: while the query for p's
+            // first packet is held, V's own request establishes the session; then the query is
+            // answered and the WHOAREYOU goes out although the session is live)
+            let mut v = vec![
+                Op::DeliverAll,
+                Op::Submit { from: peer, to: 0, body: Body::Ping, with_record: true },
+                Op::Deliver(0),
+                Op::Submit { from: 0, to: peer, body: Body::Ping, with_record },
+                Op::DeliverAll,
+                Op::AnswerWru { node: 0, sel: 0, know: Know::Current },
+            ];
+            if lost_challenge {
+                // variant: V answers at once and its WHOAREYOU is lost - a challenge is outstanding, no session
+                v = vec![
+                    Op::DeliverAll,
+                    Op::Submit { from: peer, to: 0, body: Body::Ping, with_record: true },
+                    Op::Deliver(0),
+                    Op::AnswerWru { node: 0, sel: 0, know: Know::Current },
+                    Op::Drop(0),
+                ];
+            }
+            if let Op::ForgedHandshake { z, signer, eph, rec, body, .. } = fh {
+                v.push(Op::ForgedHandshake { x: XSel::Peer(p), z, signer, eph, rec, body, spoof: true });
+            }
+            v.push(Op::DeliverAll);
+            v
+        })
+        .boxed();
     let frag = match mix {
-        Mix::Identity => prop_oneof![3 => single, 2 => attack].boxed(),
+        Mix::Identity => prop_oneof![9 => single, 6 => attack, 1 => spoof_race].boxed(),
         Mix::Exemptions => prop_oneof![6 => single, 1 => attack].boxed(),
-        Mix::Tamper => prop_oneof![5 => single, 1 => exchange].boxed(),
+        Mix::Tamper => prop_oneof![30 => single, 6 => exchange, 1 => spoof_race].boxed(),
         Mix::Replay => prop_oneof![30 => single, 6 => exchange, 1 => late_handshake].boxed(),
         _ => single,
     };
